@@ -143,7 +143,7 @@ Proof.
          | E : list_eqb rr_eqb _ _ = true |- _ => apply (list_eqb_true _ rr_eqb_true) in E
          | E : list_eqb question_eqb _ _ = true |- _ => apply (list_eqb_true _ question_eqb_true) in E
          end.
-  congruence.
+  subst. reflexivity.
 Qed.
 
 (** * OPT records of a section *)
@@ -1426,7 +1426,7 @@ Section C03Inv.
     rewrite R3. cbn. unfold rename_question. cbn [qname qtype qclass].
     destruct (name_eqb n tgt) eqn:En.
     - exists (fst x). split; [reflexivity | now left].
-    - exists n. split; [reflexivity|]. apply name_eqb_false in En.
+    - exists n. split; [reflexivity|]. apply name_eqb_false in En. cbn [fst snd] in R4.
       destruct R4 as [R4|R4]; [congruence | exact R4].
   Qed.
 
@@ -1434,7 +1434,7 @@ Section C03Inv.
   Proof.
     intros (H1 & H2 & H3 & H4 & H5). destruct (resp_add_opts_frame c es) as (_ & _ & E3 & E4 & _).
     unfold inv03. cbn [fst snd] in *. rewrite E3, E4. split5; try assumption.
-    unfold resp_add_opts. destruct (c_resp_opt c); exact H4.
+    unfold resp_add_opts. destruct (c_resp_opt c) eqn:Eo; cbn; [exact H4 | rewrite Eo; exact H4].
   Qed.
 
   Lemma ecs_inv03 fwd send preset m4 m6 k : okk inv03 k -> okk inv03 (ecs_exec fwd send preset m4 m6 k).
@@ -1487,3 +1487,397 @@ Section C03Inv.
     destruct (run_seq (plug_env ups clock xp wp mp) prog s) as [[t s'] err]. exact R.
   Qed.
 End C03Inv.
+
+
+(** * ServerMeta and the client's OPT are read-only *)
+Definition meta (c : ctx) : option opt * bool * option addr := (c_client_opt c, c_from_udp c, c_client_addr c).
+
+Section Meta.
+  Variable ups : N -> msg -> option msg.
+  Variable clock : N -> option N.
+  Variable xp : N -> xplugin.
+  Variable wp : N -> wplugin.
+  Variable mp : N -> matcher.
+
+  Definition invM (m : option opt * bool * option addr) (s : state) : Prop := meta (fst s) = m.
+
+  Lemma set_response_meta c rid m : meta (set_response c rid m) = meta c.
+  Proof. unfold meta. destruct (set_response_fields c rid m) as (_ & E2 & E3 & _ & E5). congruence. Qed.
+
+  Lemma set_fresh_meta s m : meta (fst (set_fresh s m)) = meta (fst s).
+  Proof. destruct s as [c w]. apply set_response_meta. Qed.
+
+  Lemma q_add_opts_meta c es : meta (q_add_opts c es) = meta c.
+  Proof. unfold q_add_opts. destruct (map_last_opt _ _); reflexivity. Qed.
+
+  Lemma resp_add_opts_meta c es : meta (resp_add_opts c es) = meta c.
+  Proof. unfold resp_add_opts. destruct (c_resp_opt c); reflexivity. Qed.
+
+  Lemma add_ecs_meta fwd send preset m4 m6 c c1 b : add_ecs fwd send preset m4 m6 c = Some (c1, b) -> meta c1 = meta c.
+  Proof.
+    unfold add_ecs. destruct (q_opt c) as [qo|]; [|discriminate].
+    destruct (m_question (c_query c)) as [|qu qs]; [discriminate|].
+    destruct (has_code ecs_code (o_opts qo)); [intro H; inversion H; reflexivity|].
+    destruct (negb (qclass qu =? class_inet)); [intro H; inversion H; reflexivity|].
+    destruct (if fwd then _ else None); [|destruct preset; [|destruct send; [destruct (c_client_addr c) eqn:Ea|]]];
+      intro H; inversion H; subst; try reflexivity; apply q_add_opts_meta.
+  Qed.
+
+  Lemma exec_x_invM p m s : invM m s -> invM m (fst (exec_x ups p s)).
+  Proof.
+    unfold invM. intro H. destruct s as [c w]. destruct p; cbn [exec_x]; unfold set_opt.
+    - destruct (hosts_reply h (c_query c)); cbn [fst]; [rewrite set_fresh_meta|]; exact H.
+    - destruct (black_hole_reply v4 v6 (c_query c)); cbn [fst]; [rewrite set_fresh_meta|]; exact H.
+    - destruct (arbitrary_reply z (c_query c)); cbn [fst]; [rewrite set_fresh_meta|]; exact H.
+    - destruct (c_resp c); exact H.
+    - destruct (ups u (wire (c_query c))); cbn [fst]; [rewrite set_fresh_meta|]; exact H.
+    - exact H.
+  Qed.
+
+  Lemma reject_x_invM rc m s : invM m s -> invM m (reject_x rc s).
+  Proof. unfold invM, reject_x. rewrite set_fresh_meta. auto. Qed.
+
+  Lemma wrap_w_invM w k : okk invM k -> okk invM (wrap_w clock (wp w) k).
+  Proof.
+    intros Hk m [c wd] Hs. unfold invM in *. cbn [fst] in Hs. destruct (wp w); cbn [wrap_w].
+    - unfold cache_exec. destruct (msg_key (c_query c)) as [key|]; [|apply Hk; exact Hs].
+      match goal with |- context [k (?c1, bump wd)] =>
+        assert (H1 : meta c1 = m) by (destruct (get_cached clock key (w_store wd inst) (w_next wd)); [rewrite set_response_meta|]; exact Hs);
+        specialize (Hk m (c1, bump wd) H1); destruct (k (c1, bump wd)) as [[t [c2 w2]] err] end.
+      exact Hk.
+    - unfold redirect_exec.
+      destruct (m_question (c_query c)) as [|qu [|]]; try (apply Hk; exact Hs).
+      destruct (negb (qclass qu =? class_inet)); [apply Hk; exact Hs|].
+      destruct (f (qname qu)) as [tgt|]; [|apply Hk; exact Hs].
+      match goal with |- context [k (?c1, wd)] => specialize (Hk m (c1, wd) Hs); destruct (k (c1, wd)) as [[t [c2 w2]] err] end.
+      unfold ost in *. cbn [fst snd] in *. destruct (c_resp c2); exact Hk.
+    - unfold ecs_exec. destruct (add_ecs fwd send preset mask4 mask6 c) as [[c1 forwarded]|] eqn:Ha; [|exact Hs].
+      apply add_ecs_meta in Ha. rewrite <- Ha in Hs.
+      specialize (Hk m (c1, wd) Hs). destruct (k (c1, wd)) as [[t [c2 w2]] err].
+      unfold ost in *. cbn [fst snd] in *.
+      destruct err; [exact Hk|]. destruct forwarded; [|exact Hk].
+      destruct (c_resp_opt c2) eqn:Er; [|exact Hk]. destruct (c_upstream_opt c2) as [uo|]; [|exact Hk].
+      destruct (first_code ecs_code (o_opts uo)); cbn [fst snd]; [rewrite resp_add_opts_meta|]; exact Hk.
+    - unfold fwdopt_exec. destruct (q_opt c); [|exact Hs].
+      match goal with |- context [k (?c1, wd)] =>
+        assert (H1 : meta c1 = m) by (destruct (c_client_opt c) eqn:Ec; [rewrite q_add_opts_meta|]; exact Hs);
+        specialize (Hk m (c1, wd) H1); destruct (k (c1, wd)) as [[t [c2 w2]] err] end.
+      unfold ost in *. cbn [fst snd] in *.
+      destruct err; [exact Hk|]. destruct (c_upstream_opt c2) as [uo|]; [|exact Hk].
+      destruct (c_resp_opt c2) eqn:Er; cbn [fst snd]; [rewrite resp_add_opts_meta|]; exact Hk.
+  Qed.
+
+  Lemma entry_meta prog s : meta (fst (fst (entry ups clock xp wp mp prog s))) = meta (fst s).
+  Proof.
+    unfold entry.
+    pose proof (run_seq_ok state (plug_env ups clock xp wp mp) _ invM
+                  (fun e => exec_x_invM (xp e)) reject_x_invM (fun w => wrap_w_invM w) prog (meta (fst s)) s eq_refl) as R.
+    destruct (run_seq (plug_env ups clock xp wp mp) prog s) as [[t s'] err]. exact R.
+  Qed.
+End Meta.
+
+(** ** The handler around the chain *)
+
+(** what the handler starts from: the chain's answer or a synthesised reply *)
+Definition base_reply (c : ctx) (err : option N) : msg :=
+  match chain_result_of c err with
+  | ChainErr => with_rcode (set_reply (c_query c)) rcode_servfail
+  | ChainAnswer r => r
+  | ChainNone => with_rcode (set_reply (c_query c)) Msg.rcode_refused
+  end.
+
+(** RA forced, the response OPT appended *)
+Definition finish_reply (c : ctx) (b : msg) : msg :=
+  match c_resp_opt c with
+  | Some o => with_extra (with_ra b true) (m_extra b ++ [OPT o])
+  | None => with_ra b true
+  end.
+
+Lemma pre_reply_eq c err : pre_reply c err = finish_reply c (base_reply c err).
+Proof.
+  unfold pre_reply, reply_msg, finish_reply, base_reply.
+  destruct (c_from_udp c), (c_resp_opt c); reflexivity.
+Qed.
+
+Lemma finish_reply_fields c b :
+  m_id (finish_reply c b) = m_id b /\ m_qr (finish_reply c b) = m_qr b /\ m_ra (finish_reply c b) = true
+  /\ m_question (finish_reply c b) = m_question b /\ m_rcode (finish_reply c b) = m_rcode b
+  /\ m_answer (finish_reply c b) = m_answer b /\ m_ns (finish_reply c b) = m_ns b /\ m_tc (finish_reply c b) = m_tc b
+  /\ m_opcode (finish_reply c b) = m_opcode b
+  /\ m_extra (finish_reply c b) = m_extra b ++ match c_resp_opt c with Some o => [OPT o] | None => [] end.
+Proof. unfold finish_reply. destruct (c_resp_opt c); cbn; rewrite ?app_nil_r; repeat split. Qed.
+
+Lemma extra_rel_keeps_some ex ex' : extra_rel ex ex' = true -> opts_of ex <> [] -> opts_of ex' <> [].
+Proof.
+  unfold extra_rel. intros H Hn. apply orb_true_iff in H as [H|H].
+  - apply (list_eqb_true _ rr_eqb_true) in H. now subst.
+  - destruct (pop_opt ex) as [[rest o]|] eqn:Hp; [|apply pop_opt_none in Hp; contradiction].
+    destruct (pop_opt ex') as [[rest' o']|] eqn:Hp'; [|discriminate].
+    apply pop_opt_some in Hp'. rewrite Hp'. intro E. destruct (opts_of rest'); discriminate.
+Qed.
+
+Section C03.
+  Variable ups : N -> msg -> option msg.
+  Variable clock : N -> option N.
+  Variable xp : N -> xplugin.
+  Variable wp : N -> wplugin.
+  Variable mp : N -> matcher.
+  Variable truncate : N -> msg -> msg.
+  Variable packs : msg -> bool.
+
+  Hypothesis ups_echo : forall u q r, ups u q = Some r ->
+    m_id r = m_id q /\ m_question r = m_question q /\ m_qr r = true.
+  Hypothesis trunc_contract : forall size m, trunc_rel m (truncate size m) = true.
+
+  Notation ent prog := (entry ups clock xp wp mp prog).
+  Notation run prog := (handle truncate packs (entry ups clock xp wp mp prog)).
+
+  (** malformed queries get no reply and leave the plugins alone *)
+  Lemma malformed_dropped prog w q udp ca :
+    m_qr q = true \/ length (m_question q) <> 1%nat \/ m_answer q <> [] \/ m_ns q <> [] \/ (1 < length (m_extra q))%nat ->
+    run prog w q udp ca = (w, None).
+  Proof using.
+    clear ups_echo trunc_contract. intro H. unfold handle. destruct (valid_query q) eqn:Hv; [|reflexivity]. exfalso.
+    destruct (valid_query_shape q Hv) as (V1 & (qu & V2) & V3 & V4 & V5).
+    destruct H as [H|[H|[H|[H|H]]]]; try congruence.
+    - rewrite V2 in H. now apply H.
+    - destruct V5 as [E|[x E]]; rewrite E in H; cbn in H; lia.
+  Qed.
+
+  (** What the chain leaves behind, for a valid query *)
+  Lemma chain_outcome prog w q udp ca qu c w' err :
+    valid_query q = true -> m_question q = [qu] -> CacheKey.wf_question qu -> store_ok w ->
+    ent prog (new_context q udp ca, w) = ((c, w'), err) ->
+    store_ok w' /\ m_id (c_query c) = m_id q /\ m_question (c_query c) = m_question q
+    /\ (forall r, c_resp c = Some r -> m_id r = m_id q /\ m_qr r = true /\ m_question r = m_question q)
+    /\ is_some (c_resp_opt c) = is_some (find_opt (m_extra q)).
+  Proof.
+    intros Hv Hq [Hty Hcl] Hs He.
+    assert (H0 : inv03 (m_id q) (qtype qu) (qclass qu) (is_some (find_opt (m_extra q))) (qname qu, [])
+                       (new_context q udp ca, w)).
+    { destruct (new_context_fields q udp ca) as (_ & _ & F3 & _ & F5 & F6 & _).
+      unfold inv03. cbn [fst snd]. rewrite F3, F5, F6. split5; try assumption; try reflexivity.
+      - rewrite Hq. destruct qu; reflexivity.
+      - discriminate.
+      - pose proof (new_context_resp_opt q udp ca) as H. destruct (find_opt (m_extra q)).
+        + destruct H as (r & -> & _). reflexivity.
+        + rewrite H. reflexivity. }
+    pose proof (entry_inv03 ups clock xp wp mp _ _ _ _ Hty Hcl ups_echo prog _ _ H0) as H1.
+    rewrite He in H1. destruct H1 as (K1 & K2 & K3 & K4 & K5). cbn [fst snd] in *.
+    assert (Eq : [mkqu (qname qu) (qtype qu) (qclass qu)] = m_question q) by (rewrite Hq; destruct qu; reflexivity).
+    split; [exact K5|]. split; [exact K1|]. split; [congruence|]. split; [|exact K4].
+    intros r Hr. destruct (K3 r Hr) as (R1 & R2 & n & R3 & [R4|[]]). subst n. repeat split; congruence.
+  Qed.
+
+  (** the reply before packing: id, question, QR, RA; and how it relates to
+      what the chain left *)
+  Lemma reply_shape prog w q udp ca qu c w' err :
+    valid_query q = true -> m_question q = [qu] -> CacheKey.wf_question qu -> store_ok w ->
+    ent prog (new_context q udp ca, w) = ((c, w'), err) ->
+    let r := reply_msg truncate c err in
+    m_id r = m_id q /\ m_question r = m_question q /\ m_qr r = true /\ m_ra r = true
+    /\ trunc_rel (finish_reply c (base_reply c err)) r = true
+    /\ (udp = false -> r = finish_reply c (base_reply c err)).
+  Proof.
+    intros Hv Hq Hwf Hs He. destruct (chain_outcome _ _ _ _ _ _ _ _ _ Hv Hq Hwf Hs He) as (_ & C1 & C2 & C3 & _).
+    assert (Hb : m_id (base_reply c err) = m_id q /\ m_question (base_reply c err) = m_question q
+                 /\ m_qr (base_reply c err) = true).
+    { unfold base_reply, chain_result_of. destruct err.
+      - cbn. rewrite C1, C2, Hq. repeat split.
+      - destruct (c_resp c) as [a|] eqn:Ea; [destruct (C3 a eq_refl) as (? & ? & ?); auto|]. cbn. rewrite C1, C2, Hq. repeat split. }
+    destruct Hb as (B1 & B2 & B3).
+    destruct (finish_reply_fields c (base_reply c err)) as (F1 & F2 & F3 & F4 & _).
+    assert (Hudp : c_from_udp c = udp).
+    { pose proof (entry_meta ups clock xp wp mp prog (new_context q udp ca, w)) as Hm. rewrite He in Hm.
+      cbn [fst] in Hm. destruct (new_context_fields q udp ca) as (_ & F & _).
+      unfold meta in Hm. inversion Hm. congruence. }
+    cbv zeta. rewrite (reply_msg_truncate truncate c err), pre_reply_eq, Hudp. destruct udp.
+    - pose proof (trunc_contract (valid_udp_size (c_client_opt c)) (finish_reply c (base_reply c err))) as Ht.
+      destruct (trunc_rel_parts _ _ Ht) as (T1 & T2 & T3 & _ & T5 & _).
+      split; [congruence|]. split; [congruence|]. split; [congruence|]. split; [congruence|].
+      split; [exact Ht | discriminate].
+    - split; [congruence|]. split; [congruence|]. split; [congruence|]. split; [congruence|].
+      split; [apply trunc_rel_refl | reflexivity].
+  Qed.
+End C03.
+
+Lemma is_prefix_rr_nil a : is_prefix_rr a [] = true -> a = [].
+Proof. destruct a; [reflexivity | discriminate]. Qed.
+
+Lemma pop_opt_nil_rest ex o : pop_opt ex = Some ([], o) -> ex = [OPT o].
+Proof.
+  destruct ex as [|x t]; cbn; [discriminate|].
+  destruct (pop_opt t) as [[t' o']|] eqn:Ht; [discriminate|].
+  destruct x; [discriminate|]. intro H. inversion H; subst. reflexivity.
+Qed.
+
+(** truncating a message whose additional section is just the OPT (or empty) *)
+Lemma extra_rel_only_opt ex ex' :
+  extra_rel ex ex' = true -> (ex = [] \/ exists o, ex = [OPT o]) -> ex' = ex.
+Proof.
+  unfold extra_rel. intros H Hex. apply orb_true_iff in H as [H|H].
+  - apply (list_eqb_true _ rr_eqb_true) in H. now subst.
+  - destruct Hex as [->|[o ->]]; cbn in H.
+    + now apply is_prefix_rr_nil.
+    + destruct (pop_opt ex') as [[rest' o']|] eqn:Hp; [|discriminate].
+      apply andb_true_iff in H as [H _]. apply andb_true_iff in H as [Ho Hpre].
+      apply opt_eqb_true in Ho. apply is_prefix_rr_nil in Hpre. subst. now apply pop_opt_nil_rest.
+Qed.
+
+Section C03Top.
+  Variable ups : N -> msg -> option msg.
+  Variable clock : N -> option N.
+  Variable xp : N -> xplugin.
+  Variable wp : N -> wplugin.
+  Variable mp : N -> matcher.
+  Variable truncate : N -> msg -> msg.
+  Variable packs : msg -> bool.
+  Variable plen : msg -> N.          (* length of the packed message *)
+
+  Hypothesis ups_echo : forall u q r, ups u q = Some r ->
+    m_id r = m_id q /\ m_question r = m_question q /\ m_qr r = true.
+  (** contract of Msg.Truncate: the relation, and the result packs to at most max(512, size) bytes *)
+  Hypothesis trunc_contract : forall size m, trunc_rel m (truncate size m) = true.
+  Hypothesis trunc_len : forall size m, plen (truncate size m) <= N.max 512 size.
+  (** contract of the pack function: it succeeds on a message of at most 65535
+      bytes unless the rcode is an extended one and there is no OPT to carry it *)
+  Hypothesis packs_ok : forall m, (m_rcode m < 16 \/ opts_of (m_extra m) <> []) -> plen m <= 65535 -> packs m = true.
+
+  Notation ent prog := (entry ups clock xp wp mp prog).
+  Notation run prog := (handle truncate packs (entry ups clock xp wp mp prog)).
+
+  Definition advertised (q : msg) : N := match find_opt (m_extra q) with Some o => o_udp o | None => 0 end.
+
+  Lemma reply_exactly_one_id_question prog w q udp ca qu c w' err :
+    valid_query q = true -> m_question q = [qu] -> CacheKey.wf_question qu -> store_ok w ->
+    ent prog (new_context q udp ca, w) = ((c, w'), err) ->
+    (m_rcode (base_reply c err) < 16 \/ find_opt (m_extra q) <> None) ->
+    plen (reply_msg truncate c err) <= 65535 ->
+    exists r, run prog w q udp ca = (w', Some r) /\ r = reply_msg truncate c err
+              /\ m_id r = m_id q /\ m_question r = m_question q /\ m_qr r = true /\ m_ra r = true
+              /\ store_ok w'.
+  Proof using ups_echo trunc_contract packs_ok.
+    clear trunc_len.
+    intros Hv Hq Hwf Hs He Hrc Hlen.
+    destruct (reply_shape ups clock xp wp mp truncate ups_echo trunc_contract _ _ _ _ _ _ _ _ _ Hv Hq Hwf Hs He)
+      as (R1 & R2 & R3 & R4 & R5 & _).
+    destruct (chain_outcome ups clock xp wp mp ups_echo _ _ _ _ _ _ _ _ _ Hv Hq Hwf Hs He) as (S1 & _ & _ & _ & S5).
+    exists (reply_msg truncate c err). unfold handle. rewrite Hv, He.
+    assert (Hp : packs (reply_msg truncate c err) = true).
+    { apply packs_ok; [|exact Hlen].
+      destruct (trunc_rel_parts _ _ R5) as (_ & _ & _ & T4 & _ & _ & T7 & _).
+      destruct (finish_reply_fields c (base_reply c err)) as (_ & _ & _ & _ & F5 & _ & _ & _ & _ & F10).
+      destruct Hrc as [Hrc|Hrc]; [left; congruence|]. right.
+      apply (extra_rel_keeps_some _ _ T7). rewrite F10, opts_of_app.
+      destruct (find_opt (m_extra q)); [|congruence]. destruct (c_resp_opt c); [|discriminate].
+      cbn. intro E. apply app_eq_nil in E as [_ E]. discriminate. }
+    rewrite Hp. split; [reflexivity|]. split; [reflexivity|]. split; [exact R1|]. split; [exact R2|].
+    split; [exact R3|]. split; [exact R4 | exact S1].
+  Qed.
+
+  (** The three cases of the reply, as relations to what the chain left. *)
+  Lemma servfail_on_error prog w q udp ca qu c w' e :
+    valid_query q = true -> m_question q = [qu] -> CacheKey.wf_question qu -> store_ok w ->
+    ent prog (new_context q udp ca, w) = ((c, w'), Some e) ->
+    let r := reply_msg truncate c (Some e) in
+    m_rcode r = rcode_servfail /\ m_answer r = [] /\ m_ns r = []
+    /\ m_extra r = match c_resp_opt c with Some o => [OPT o] | None => [] end.
+  Proof using ups_echo trunc_contract.
+    clear trunc_len packs_ok.
+    intros Hv Hq Hwf Hs He.
+    destruct (reply_shape ups clock xp wp mp truncate ups_echo trunc_contract _ _ _ _ _ _ _ _ _ Hv Hq Hwf Hs He)
+      as (_ & _ & _ & _ & R5 & _).
+    destruct (trunc_rel_parts _ _ R5) as (_ & _ & _ & T4 & _ & _ & T7 & _ & T9 & T10).
+    destruct (finish_reply_fields c (base_reply c (Some e))) as (_ & _ & _ & _ & F5 & F6 & F7 & _ & _ & F10).
+    cbv zeta. rewrite F6 in T9. rewrite F7 in T10. rewrite F10 in T7. cbn in T9, T10, T7, F5.
+    apply is_prefix_rr_nil in T9, T10. split; [rewrite T4; exact F5|]. split; [exact T9|]. split; [exact T10|].
+    apply (extra_rel_only_opt _ _ T7). destruct (c_resp_opt c); eauto.
+  Qed.
+
+  Lemma refused_on_no_answer prog w q udp ca qu c w' :
+    valid_query q = true -> m_question q = [qu] -> CacheKey.wf_question qu -> store_ok w ->
+    ent prog (new_context q udp ca, w) = ((c, w'), None) -> c_resp c = None ->
+    let r := reply_msg truncate c None in
+    m_rcode r = Msg.rcode_refused /\ m_answer r = [] /\ m_ns r = []
+    /\ m_extra r = match c_resp_opt c with Some o => [OPT o] | None => [] end.
+  Proof using ups_echo trunc_contract.
+    clear trunc_len packs_ok.
+    intros Hv Hq Hwf Hs He Hn.
+    destruct (reply_shape ups clock xp wp mp truncate ups_echo trunc_contract _ _ _ _ _ _ _ _ _ Hv Hq Hwf Hs He)
+      as (_ & _ & _ & _ & R5 & _).
+    destruct (trunc_rel_parts _ _ R5) as (_ & _ & _ & T4 & _ & _ & T7 & _ & T9 & T10).
+    destruct (finish_reply_fields c (base_reply c None)) as (_ & _ & _ & _ & F5 & F6 & F7 & _ & _ & F10).
+    unfold base_reply, chain_result_of in *. rewrite Hn in *.
+    cbv zeta. rewrite F6 in T9. rewrite F7 in T10. rewrite F10 in T7. cbn in T9, T10, T7, F5.
+    apply is_prefix_rr_nil in T9, T10. split; [rewrite T4; exact F5|]. split; [exact T9|]. split; [exact T10|].
+    apply (extra_rel_only_opt _ _ T7). destruct (c_resp_opt c); eauto.
+  Qed.
+
+  (** The reply is the plugins' answer [a] with RA forced and the response OPT
+      appended — unchanged over TCP, and over UDP any truncation of it the
+      contract allows (header and question kept, a prefix of each section, the
+      OPT kept, TC = TC || dropped). *)
+  Lemma answer_is_plugins_answer prog w q udp ca qu c w' a :
+    valid_query q = true -> m_question q = [qu] -> CacheKey.wf_question qu -> store_ok w ->
+    ent prog (new_context q udp ca, w) = ((c, w'), None) -> c_resp c = Some a ->
+    let r := reply_msg truncate c None in
+    let full := finish_reply c a in
+    m_rcode r = m_rcode a /\ m_opcode r = m_opcode a
+    /\ trunc_rel full r = true /\ (udp = false -> r = full)
+    /\ m_answer full = m_answer a /\ m_ns full = m_ns a
+    /\ m_extra full = m_extra a ++ match c_resp_opt c with Some o => [OPT o] | None => [] end.
+  Proof using ups_echo trunc_contract.
+    clear trunc_len packs_ok.
+    intros Hv Hq Hwf Hs He Ha.
+    destruct (reply_shape ups clock xp wp mp truncate ups_echo trunc_contract _ _ _ _ _ _ _ _ _ Hv Hq Hwf Hs He)
+      as (_ & _ & _ & _ & R5 & R6).
+    unfold base_reply, chain_result_of in R5, R6. rewrite Ha in R5, R6.
+    destruct (trunc_rel_parts _ _ R5) as (_ & _ & _ & T4 & _ & T6 & _).
+    destruct (finish_reply_fields c a) as (_ & _ & _ & _ & F5 & F6 & F7 & _ & F9 & F10).
+    cbv zeta. repeat split; try assumption; congruence.
+  Qed.
+
+  (** Over UDP the reply never exceeds max(512, the client's advertised size) *)
+  Lemma udp_size_bound prog w q ca c w' err :
+    ent prog (new_context q true ca, w) = ((c, w'), err) ->
+    plen (reply_msg truncate c err) <= N.max 512 (advertised q).
+  Proof using trunc_len.
+    clear ups_echo trunc_contract packs_ok packs.
+    intro He. pose proof (entry_meta ups clock xp wp mp prog (new_context q true ca, w)) as Hm.
+    rewrite He in Hm. cbn [fst] in Hm. destruct (new_context_fields q true ca) as (_ & F2 & _).
+    unfold meta in Hm. inversion Hm as [[M1 M2 M3]]. rewrite new_context_client_opt in M1.
+    rewrite (reply_msg_truncate truncate c err), M2, F2.
+    eapply N.le_trans; [apply trunc_len|]. rewrite M1. unfold advertised, valid_udp_size, min_msg_size.
+    destruct (find_opt (m_extra q)) as [o|]; [destruct (o_udp o <? 512) eqn:E | cbn]; lia.
+  Qed.
+
+  (** ... and TC is set exactly when it was already set or records were dropped *)
+  Lemma tc_iff_dropped prog w q udp ca qu c w' err :
+    valid_query q = true -> m_question q = [qu] -> CacheKey.wf_question qu -> store_ok w ->
+    ent prog (new_context q udp ca, w) = ((c, w'), err) ->
+    let r := reply_msg truncate c err in
+    m_tc r = (m_tc (base_reply c err) || dropped (finish_reply c (base_reply c err)) r).
+  Proof using ups_echo trunc_contract.
+    clear trunc_len packs_ok.
+    intros Hv Hq Hwf Hs He.
+    destruct (reply_shape ups clock xp wp mp truncate ups_echo trunc_contract _ _ _ _ _ _ _ _ _ Hv Hq Hwf Hs He)
+      as (_ & _ & _ & _ & R5 & _).
+    destruct (trunc_rel_parts _ _ R5) as (_ & _ & _ & _ & _ & _ & _ & T8 & _).
+    destruct (finish_reply_fields c (base_reply c err)) as (_ & _ & _ & _ & _ & _ & _ & F8 & _).
+    cbv zeta. rewrite T8, F8. reflexivity.
+  Qed.
+
+  (** the cache contents stay consistent, so the theorems apply to the next query *)
+  Lemma store_ok_preserved prog w q udp ca qu :
+    valid_query q = true -> m_question q = [qu] -> CacheKey.wf_question qu -> store_ok w ->
+    store_ok (fst (run prog w q udp ca)).
+  Proof using ups_echo.
+    clear trunc_contract trunc_len packs_ok.
+    intros Hv Hq Hwf Hs. unfold handle. rewrite Hv.
+    destruct (ent prog (new_context q udp ca, w)) as [[c w'] err] eqn:He.
+    destruct (chain_outcome ups clock xp wp mp ups_echo _ _ _ _ _ _ _ _ _ Hv Hq Hwf Hs He) as (S1 & _). exact S1.
+  Qed.
+End C03Top.
+
+Lemma store_ok_empty : store_ok empty_world.
+Proof. intros i k v []. Qed.
